@@ -18,6 +18,7 @@ R-C20-5  (syntax) the boolean accumulators in the functions that decide assignab
          initialised `false` only or-ed.
 """
 import itertools
+import re
 from .common import walk, src, strip, AnchorError
 from .c06 import nullable_table, ATOMS
 
@@ -109,15 +110,53 @@ def run(chk, facts):
         outer_ok = src(strip(lp["iter"])).replace(" ", "") == "other.names" and src(lp["pat"]) == "name"
         body = src(lp["body"]).replace(" ", "")
         inner_ok = "self.names.iter().map(is_superset).collect" in body and "letis_superset=|s_name|s_name.is_superset_of(name,ctx,pos)" in body
-        ifs = [n for n in walk(lp["body"]) if n.get("k") == "if"]
+        # The three decisions, compared as boolean functions (truth tables over I = other.is_interchangeable, C = "some member of self
+        # accepts this member", ACC = the accumulator) - not as text: `xs.all(|b| !*b)` is not C, `if I { ACC } else { true }` is
+        # `!I || ACC`, intermediates may be named.
+        from .common import inline_lets, bool_formula, equivalent, tail_expr as _tail
+        lb = inline_lets(lp["body"], typed=True)
+        I_ATOM = "other.is_interchangeable"
+
+        def canon(t):
+            t = t.replace(".clone()", "")
+            while t.startswith("(") and t.endswith(")"):
+                t = t[1:-1]
+            m = re.fullmatch(r"(.*)\.iter\(\)\.all\(\|(\w+)\|\(?!\*\2\)?\)", t)
+            if m:
+                return "C", True
+            m = re.fullmatch(r"(.*)\.iter\(\)\.any\(\|(\w+)\|\(?\*\2\)?\)", t)
+            if m:
+                return "C", False
+            if t == I_ATOM:
+                return "I", False
+            return t, False
         early = False
-        for i in ifs:
-            c = src(strip(i["c"])).replace(" ", "")
-            if c == "(!other.is_interchangeable&&any_superset.clone().iter().all(|b|!*b))" and src(i["then"]).replace(" ", "").startswith("{returnOk(false)"):
-                early = True
-        tail = src(strip(fn["body"]["stmts"][-1]["e"])).replace(" ", "")
-        tail_ok = tail == "Ok(ifother.is_interchangeable{self_is_super_of}else{true})"
-        acc_ok = "self_is_super_of|=any_superset.iter().any(|b|*b)" in body.replace("(", "", 0) or "(self_is_super_of|=any_superset.iter().any(|b|*b))" in body
+        for i in [n for n in walk(lb) if n.get("k") == "if"]:
+            then_s = src(i["then"]).replace(" ", "")
+            if not then_s.startswith("{returnOk(false)"):
+                continue
+            f_, at = bool_formula(i["c"], canon)
+            if set(at) <= {"I", "C"}:
+                okq, _ = equivalent(f_, at, lambda v: (not v.get("I", False)) and (not v.get("C", False)))
+                early = early or okq
+        acc_ok, acc_name = False, None
+        for n in walk(lb):
+            if n.get("k") == "binary" and n["op"] == "|=":
+                f_, at = bool_formula(n["r"], canon)
+                if set(at) == {"C"} and equivalent(f_, at, lambda v: v["C"])[0]:
+                    acc_ok, acc_name = True, src(strip(n["l"])).replace(" ", "")
+        tail_ok = False
+        te = _tail(fn["body"])
+        te = strip(te) if te else None
+        if te is not None and te.get("k") == "call" and src(te["f"]) == "Ok" and te["args"] and acc_name:
+            def canon2(t):
+                t2, neg = canon(t)
+                if t2.replace("(", "").replace(")", "") == acc_name:
+                    return "ACC", neg
+                return t2, neg
+            f_, at = bool_formula(te["args"][0], canon2)
+            if set(at) <= {"I", "ACC"}:
+                tail_ok = equivalent(f_, at, lambda v: (not v.get("I", False)) or v.get("ACC", False))[0]
         ok = outer_ok and inner_ok and early and tail_ok and acc_ok
         chk.ob("R-C20-2", "forall-exists", ok,
                "for every member of other some member of self accepts it; the first uncovered member rejects" if ok else
